@@ -96,6 +96,13 @@ func (w *failWriter) Write(p []byte) (int, error) {
 	return len(p), nil
 }
 
+// RegIn is the Go struct the input type In (a: String, n: Int, l: [String]) is registered as in the world "regin".
+type RegIn struct {
+	A string
+	N int32
+	L []string
+}
+
 func NewWorker(u *Universe, out io.Writer) (*Worker, error) {
 	w := &Worker{U: u, out: bufio.NewWriter(out)}
 	for _, st := range []gq.Strategy{gq.Iface, gq.Any} {
@@ -110,6 +117,15 @@ func NewWorker(u *Universe, out io.Writer) (*Worker, error) {
 		return nil, err
 	}
 	w.worlds = append(w.worlds, &world{name: "refl", root: gw.Root})
+	// Resolver objects again, the input type In bound to a Go struct (RegisterType): arguments are set by reflection
+	gw, err = gq.NewWorld(&u.Exec, gq.Iface, gq.ListIfaceSlice)
+	if err != nil {
+		return nil, err
+	}
+	if err = gw.Root.RegisterType(&RegIn{}, "In"); err != nil {
+		return nil, err
+	}
+	w.worlds = append(w.worlds, &world{name: "regin", root: gw.Root})
 	// a root that has the schema but neither a root object nor a root resolver
 	nores := ggql.NewRoot(nil)
 	if err = nores.ParseString(u.Exec.SDL()); err != nil {
@@ -232,6 +248,26 @@ func (w *Worker) exerciseSchema(label string, root *ggql.Root) {
 		for _, t := range root.Directives() {
 			_ = t.SDL(true)
 			_ = t.String()
+		}
+	})
+	w.step(label+"/Type.CoerceIn+CoerceOut", nil, func() {
+		// the coercers of the loaded types are public entry points for external data (variable values)
+		vals := []interface{}{nil, map[string]interface{}{}, map[string]interface{}{"a": nil}, map[string]interface{}{"a": map[string]interface{}{}},
+			[]interface{}{}, []interface{}{nil}, []interface{}{map[string]interface{}{}}, "x", "RED", 1, int64(1) << 40, 1.5, true}
+		for _, t := range root.Types() {
+			if t.Core() {
+				continue
+			}
+			if ic, ok := t.(ggql.InCoercer); ok {
+				for _, v := range vals {
+					_, _ = ic.CoerceIn(v)
+				}
+			}
+			if oc, ok := t.(ggql.OutCoercer); ok {
+				for _, v := range vals {
+					_, _ = oc.CoerceOut(v)
+				}
+			}
 		}
 	})
 	w.step(label+"/Type.Write[failing writer]", nil, func() {
